@@ -7,21 +7,7 @@ BASELINE = ('cd /repo && /venv/bin/python -m pytest -ra -q -p no:cacheprovider -
             '--continue-on-collection-errors')
 
 # id -> (technique, level text, level note)
-CLAIMED = {
-    'C15': (
-        'Lean 4 theorems on definitions regenerated from the source (prefix-xor doubling, telescoping, '
-        'one-bit step induction) + exact table correspondence for the label maps',
-        'gray2binary/binary2gray/xor/count_bits/int2bits/level2bits are re-translated from /repo into Lean on '
-        'every run and the theorems (mutual inverse on [0,2^64), range closure, one-bit steps incl. wrap-around, '
-        'count_bits = popcount with termination, bit errors = Hamming distance, PSK labels one bit apart between '
-        'ring neighbours for every M=2^m) are kernel-checked against them; the PSK/QAM label maps are hand models '
-        'tied by exact comparison of every constellation table; two known findings (setPhaseOffset order, '
-        'QAM>=64 labelling) carry proved negative witnesses.',
-        'Trusted: Lean kernel, axioms {propext, Classical.choice, Quot.sound}, harness/translate.py integer '
-        'fragment, the table correspondence for fundamental.py label maps. Partial: the geometric half '
-        '(minimum-distance pairs are exactly ring/grid neighbours) is checked numerically by the oracle, not proved; '
-        'QAM Gray theorem proved for orders 4 and 16 only (the code is not Gray labelled from 64 on).'),
-}
+CLAIMED = {}
 
 # properties whose checks have been integrated and validated on the clean tree
 INTEGRATED = ['C01', 'C15', 'C16']
